@@ -309,6 +309,11 @@ class OptimizationAbstract(ABC, Generic[T]):
         # Evaluate the early stopping criteria
         if early_stopping is not None:
             min_delta, patience = early_stopping.min_delta, early_stopping.patience
+            # the model accepts None for either criterion: an unset criterion falls back on the model's default
+            if patience is None:
+                patience = 1
+            if min_delta is None:
+                min_delta = 1e-4
             print(min_delta, patience, self._error_diffs[-patience:])
             has_to_stop |= all([diff < 0 and abs(diff) < min_delta for diff in self._error_diffs[-patience:]])
 
